@@ -49,7 +49,7 @@ ASSUMPTIONS = [
 
 KINDS = {'IndexError': 'KIndex', 'TypeError': 'KType', 'ValueError': 'KValue', 'RuntimeError': 'KRuntime',
          'AttributeError': 'KAttr', 'AssertionError': 'KAssert'}
-QUERY_OPS = {'qdur', 'qbody', 'eq', 'eqcopy', 'nop', 'hold'}
+QUERY_OPS = {'qdur', 'qbody', 'eq', 'eqcopy', 'nop', 'hold', 'holdcopy'}
 
 # ---------------------------------------------------------------------------------------------------------------------
 # generation
@@ -212,12 +212,14 @@ def gen_cases(rng, tier, ctx):
                 ops.append(rnd_op(rng, True))
         cases.append({'kind': 'hist', 'src': 'rollmix', 'init': init, 'ops': ops})
     cases.extend(gen_forest(rng, quick))
+    cases.extend(gen_forest3(rng, quick))
     return cases
 
 
 # round 2: the user keeps references to nodes; a node that dropped out of the program is edited afterwards
 REMOVERS = ['setslice', 'setslice', 'setint', 'unroll', 'merge', 'cleanup', 'unrollc', 'encaps', 'split']
-EDITS = ['append', 'append', 'setwf', 'setrep', 'setslice', 'setint', 'copyappend', 'unrollc', 'reverse', 'qdur']
+EDITS = ['append', 'append', 'setwf', 'setrep', 'setslice', 'setint', 'copyappend', 'unrollc', 'reverse', 'qdur', 'encaps', 'split',
+         'cleanup']
 
 
 def rnd_op_of(rng, kinds):
@@ -278,6 +280,148 @@ def gen_forest(rng, quick):
             else:
                 ops.append({'f': 'main', 'op': rnd_op(rng, False)})
         cases.append({'kind': 'forest', 'src': 'frand', 'init': init, 'ops': ops})
+    return cases
+
+
+# round 3: input classes the generators above cannot produce (all deterministic families + a random stream)
+def gen_forest3(rng, quick):
+    cases = []
+    lf = lambda d, r=1, v=1: L(['c', d, v], r)
+    M = lambda o: {'f': 'main', 'op': o}
+    Q = lambda sel=(): M({'op': 'qdur', 'sel': list(sel)})
+    AT = lambda k, o: {'f': 'at', 'k': k, 'op': o}
+    QH = lambda k: AT(k, {'op': 'qdur', 'sel': []})
+    held_edits = [
+        {'op': 'append', 'sel': [], 't': lf('7'), 'kw': False},
+        {'op': 'append', 'sel': [0], 't': lf('2'), 'kw': True},
+        {'op': 'setwf', 'sel': [0], 'w': ['c', '5', 1]},
+        {'op': 'setrep', 'sel': [], 'z': 4},
+        {'op': 'reverse', 'sel': []},
+        {'op': 'encaps', 'sel': []},
+        {'op': 'setslice', 'sel': [], 'start': 0, 'stop': 1, 'step': None, 'ts': []},
+        {'op': 'setslice', 'sel': [], 'start': None, 'stop': None, 'step': -1, 'ts': [lf('1'), lf('2')]},
+        {'op': 'split', 'sel': [], 'ci': None},
+        {'op': 'unrollc', 'sel': []},
+        {'op': 'cleanup', 'sel': [], 'rm': True, 'mg': True},
+        {'op': 'setint', 'sel': [], 'idx': -1, 't': lf('3')},
+    ]
+
+    def add(src, init, ops):
+        cases.append({'kind': 'forest', 'src': src, 'init': init, 'ops': ops})
+
+    # (a) a child is replaced by a DISTINCT BUT STRUCTURALLY EQUAL node (Loop.__eq__ is structural: `in` / `==` based
+    #     bookkeeping confuses the two), in every way the API offers; then the replaced node is edited
+    A = N([lf('1'), lf('2', 2)], 2)
+    B = lf('4', 3)
+    for init, specs in ((N([A, B], 2), [A, B]), (N([A, A, B]), [A, A, B]), (N([N([B, B], 2), A]), [N([B, B], 2), A])):
+        n = len(specs)
+        for i in range(n):
+            repl = [
+                M({'op': 'setint', 'sel': [], 'idx': i, 't': specs[i]}),
+                M({'op': 'setint', 'sel': [], 'idx': i - n, 't': specs[i]}),
+                M({'op': 'setslice', 'sel': [], 'start': i, 'stop': i + 1, 'step': None, 'ts': [specs[i]]}),
+                M({'op': 'setslice', 'sel': [], 'start': None, 'stop': None, 'step': None, 'ts': list(specs)}),
+                M({'op': 'setslice', 'sel': [], 'start': None, 'stop': None, 'step': -1, 'ts': list(reversed(specs))}),
+                M({'op': 'setslice', 'sel': [], 'start': i, 'stop': None, 'step': n, 'ts': [specs[i]]}),
+                M({'op': 'setslice', 'sel': [], 'start': i, 'stop': i + 1, 'step': None, 'ts': [specs[i], specs[i]]}),
+                M({'op': 'unrollc', 'sel': []}),
+            ]
+            for r in repl:
+                for ed in held_edits[:6]:
+                    add('eqrepl', init, [Q(), {'f': 'hold', 'sel': [i]}, r, Q(), AT(0, ed), Q(), QH(0),
+                                         M({'op': 'eq', 'sel': [i], 'sel2': [(i + 1) % n]})])
+    # (b) the merged-away / cleaned-away / unrolled child is edited through a held reference (the husk)
+    for init in (N([N([N([lf('1'), lf('2', 2)], 2)], 1), lf('4')]), N([N([N([lf('1', 3)], 2, [[0, '0', '1']])], 3)], 2),
+                 N([N([N([lf('1'), N([lf('2')], 2)], 2)], 2, [[1, '0', '1/2']]), lf('4')], 1)):
+        for rm in ({'op': 'merge', 'sel': [0]}, {'op': 'cleanup', 'sel': [0], 'rm': True, 'mg': True},
+                   {'op': 'cleanup', 'sel': [], 'rm': False, 'mg': True}, {'op': 'unroll', 'sel': [0, 0]},
+                   {'op': 'unrollc', 'sel': [0]}, {'op': 'encaps', 'sel': [0]}):
+            for ed in held_edits:
+                add('husk', init, [Q(), {'f': 'hold', 'sel': [0, 0]}, M(rm), Q(), AT(0, ed), Q(), QH(0), Q([0, 0])])
+            add('husk', init, [Q(), {'f': 'hold', 'sel': [0, 0]}, M(rm), Q(),
+                               {'f': 'flatten', 'b': 0, 'sel': [], 'depth': 1}, Q(), QH(0)])
+    # (c) held nodes THEMSELVES are handed back: reordering / moving (legal: every node ends up listed once) and
+    #     aliasing (one object at two places, a node below itself: known finding aliased-insert)
+    T3 = N([N([lf('1'), lf('2', 2)], 2), lf('4', 3), N([lf('8')], 1)], 2)
+    H = lambda sel: {'f': 'hold', 'sel': list(sel)}
+    INS = lambda ks, dst, how, b=None: {'f': 'ins', 'ks': list(ks), 'b': b, 'dst': list(dst), 'how': how}
+    whole = ['slice', None, None, None]
+    for perm in ([1, 0, 2], [2, 1, 0], [1, 2, 0], [0, 2], [2], [0, 1, 2], [0, 0, 1], [1, 1], [0, 1, 2, 0]):
+        for how in (whole, ['slice', 0, 3, None], ['slice', None, None, -1] if len(perm) == 3 else ['slice', 0, 2, None]):
+            add('reorder', T3, [Q(), H([0]), H([1]), H([2]), INS(perm, [], how), Q(),
+                                AT(0, held_edits[0]), M({'op': 'append', 'sel': [0], 't': lf('3'), 'kw': False}), Q(), QH(0)])
+    for src_sel, dst, how in (([0], [2], ['app']), ([0], [2], ['int', 0]), ([0], [], ['app']), ([0], [], ['int', -1]),
+                              ([0, 1], [], ['app']), ([0, 1], [2], ['slice', 0, 0, None]), ([2], [0], ['slice', 1, None, None])):
+        for detach_first in (False, True):
+            ops = [Q(), H(src_sel)]
+            if detach_first:     # a legal move: the node is removed from its place first
+                ops += [M({'op': 'setslice', 'sel': src_sel[:-1], 'start': src_sel[-1], 'stop': src_sel[-1] + 1, 'step': None,
+                           'ts': []}), Q()]
+            ops += [INS([0], dst, how), Q(), {'f': 'ins', 'ks': [0], 'b': 0, 'dst': [], 'how': ['app']} if False else
+                    AT(0, held_edits[0]), M({'op': 'append', 'sel': dst + [0], 't': lf('5'), 'kw': True}), Q(),
+                    M({'op': 'setwf', 'sel': dst + [0, 0], 'w': ['c', '6', 1]}), Q()]
+            add('move' if detach_first else 'alias', T3, ops)
+    # a node assigned into its own descendant / into itself
+    for sel, dst, how in (([0], [0], ['app']), ([0], [], ['int', 0]), ([0], [1], ['app']), ([], [0], ['app']), ([], [0, 1], ['app']),
+                          ([], [], ['app']), ([0], [], ['slice', None, None, None]), ([], [2], ['slice', 0, 1, None])):
+        for pre in ([], [Q()]):
+            add('cycle', T3, pre + [H(sel), INS([0], dst, how, b=0 if sel else None), Q()])
+    # (d) copies: default / None / explicit new_parent; the copy is edited (waveform objects are shared with the
+    #     original), the original is edited, the copy is inserted
+    for np_ in (0, 1, 2):
+        for sel in ([0], [0, 1], [2], []):
+            for ed in held_edits[:5] + [{'op': 'roll', 'sel': [], 'mq': 2, 'q': 1, 'sr': '1'}]:
+                add('copy', T3, [Q(), {'f': 'holdcopy', 'b': None, 'sel': sel, 'np': np_, 'q': [2]}, AT(0, ed), Q(), QH(0),
+                                 M({'op': 'roll', 'sel': [], 'mq': 2, 'q': 1, 'sr': '1'}), Q(), QH(0),
+                                 M({'op': 'eq', 'sel': sel, 'sel2': sel}),
+                                 INS([0], [2], ['app']), Q(), M({'op': 'setwf', 'sel': [2, 1], 'w': ['c', '3', 1]}), Q()])
+    # (e) encapsulate on nodes with count != 1 after a duration read; add_measurements; flatten_and_balance
+    for r in (0, 2, 3, ['v', 2, 0], ['v', 0, 1]):
+        init = N([N([lf('1'), lf('2', 2)], r, [[0, '0', '1']]), L(['t', '3/2', 1, False], r)], 2)
+        for sel in ([0], [1], [], [0, 1]):
+            for q in (Q(), Q(sel), M({'op': 'qbody', 'sel': sel}), M({'op': 'nop', 'sel': []})):
+                add('encaps', init, [q, M({'op': 'encaps', 'sel': sel}), Q(), M({'op': 'append', 'sel': sel + [0], 't': lf('5'), 'kw': False}),
+                                     Q(), M({'op': 'setrep', 'sel': sel + [0], 'z': 3}), Q(), M({'op': 'encaps', 'sel': sel + [0]}), Q()])
+    for depth in (0, 1, 2, 3, 4):
+        for init in (T3, SEEDS[0], SEEDS[1], SEEDS[2], N([lf('1'), N([N([lf('2', 2)], 0), lf('3')], 2)], 3)):
+            for sel in ([], [0]):
+                add('flatten', init, [Q(), {'f': 'flatten', 'b': None, 'sel': sel, 'depth': depth}, Q(),
+                                      M({'op': 'append', 'sel': [0], 't': lf('5'), 'kw': False}), Q(),
+                                      {'f': 'addmeas', 'b': None, 'sel': sel, 'ms': [[0, '0', '1'], [1, '1/2', '1/2']]}, Q(),
+                                      {'f': 'flatten', 'b': None, 'sel': [], 'depth': depth - 1}, Q()])
+    if quick:
+        keep_all = ('cycle', 'alias', 'move')
+        off = rng.randint(0, 2)
+        cases = [c for i, c in enumerate(cases) if c['src'] in keep_all or i % 3 == off]
+    # random stream over the whole forest alphabet
+    for _ in range(110 if quick else 3000):
+        init = rnd_spec(rng, rng.choice([2, 2, 3]), leaf_p=0.1)
+        ops = []
+        for _ in range(rng.randint(4, 10 if quick else 22)):
+            r = rng.random()
+            b = rng.choice([None, None, 0, 1, 2])
+            if r < 0.14:
+                ops.append({'f': 'hold', 'sel': [rng.randint(0, 3) for _ in range(rng.choice([1, 1, 2]))]})
+            elif r < 0.22:
+                ops.append({'f': 'holdcopy', 'b': b, 'sel': rnd_sel(rng), 'np': rng.choice([0, 0, 1, 2]), 'q': rnd_sel(rng)})
+            elif r < 0.36:
+                how = rng.choice([['app'], ['app'], ['int', rng.choice([0, -1, 1, 3])],
+                                  ['slice', rnd_optz(rng), rnd_optz(rng), rng.choice([None, None, 1, -1, 2])]])
+                ops.append({'f': 'ins', 'ks': [rng.randint(0, 3) for _ in range(rng.choice([1, 1, 1, 2, 3]))], 'b': b,
+                            'dst': rnd_sel(rng), 'how': how})
+            elif r < 0.42:
+                ops.append({'f': 'addmeas', 'b': b, 'sel': rnd_sel(rng), 'ms': rnd_meas(rng) or [[0, '0', '1']]})
+            elif r < 0.48:
+                ops.append({'f': 'flatten', 'b': b, 'sel': rnd_sel(rng), 'depth': rng.randint(0, 4)})
+            elif r < 0.62:
+                ops.append({'f': 'at', 'k': rng.randint(0, 2), 'op': rnd_op_of(rng, EDITS)})
+            elif r < 0.76:
+                ops.append({'f': 'main', 'op': {'op': 'qdur', 'sel': rnd_sel(rng)}})
+            elif r < 0.9:
+                ops.append({'f': 'main', 'op': rnd_op_of(rng, REMOVERS)})
+            else:
+                ops.append({'f': 'main', 'op': rnd_op(rng, False)})
+        cases.append({'kind': 'forest', 'src': 'frand3', 'init': init, 'ops': ops})
     return cases
 
 
@@ -394,10 +538,35 @@ def _wf_obs(w):
 
 
 def _top(m):
-    t = m
+    t, seen = m, set()
     while t.parent is not None and len(t.parent) > 0:
+        seen.add(id(t))
         t = t.parent
+        if id(t) in seen:       # the recorded parents form a cycle (left behind by a failed assignment): as the model
+            return m
     return t
+
+
+def _cyclic(node, stack=()):
+    if any(node is a for a in stack):
+        return True
+    return any(_cyclic(c, stack + (node,)) for c in node.children)
+
+
+def _aliased(roots):
+    """some node is listed at two positions (of one or of two listers) in the trees below `roots`"""
+    seen, done, stack = {}, set(), list(roots)
+    while stack:
+        n = stack.pop()
+        if id(n) in done:
+            continue
+        done.add(id(n))
+        for i, c in enumerate(n.children):
+            if id(c) in seen:
+                return True
+            seen[id(c)] = (id(n), i)
+            stack.append(c)
+    return False
 
 
 def observe(root, top=None):
@@ -405,7 +574,9 @@ def observe(root, top=None):
     live = _live(root)
     if len(live) > 400:
         raise RuntimeError('tree too large')
-    paths = {id(n): p for n, p in live}
+    paths = {}
+    for n, p in live:
+        paths.setdefault(id(n), p)      # a node listed twice: the first position in preorder (as the model's lookup)
     slots = _slots(root)
     saved = [(n, [(s, getattr(n, s)) for s in slots if hasattr(n, s)]) for n, _ in live]
 
@@ -428,7 +599,7 @@ def observe(root, top=None):
             pr = 'out'
         try:
             loc = 'self' if top.locate(n.get_location()) is n else 'other'
-        except (TypeError, IndexError):
+        except (TypeError, IndexError, RecursionError):
             loc = 'err'
         m = n._measurements
         info[id(n)] = {'rep': int(n.repetition_count), 'vol': bool(n.volatile_repetition), 'wf': _wf_obs(n.waveform),
@@ -567,6 +738,8 @@ def run_forest(case):
                 main = {id(n) for n, _ in _live(root)}
                 return [None if id(m) in main else sub_obs(m) for m in held]
             steps = [{'f': {'f': 'main', 'op': nop}, 'out': 'KDone', 'eq': None, 'tree': observe(root), 'held': []}]
+            floating = set()        # ids of held copies made with an explicit new_parent that were not inserted anywhere yet
+            dummy = {'rep': 1, 'vol': False, 'wf': None, 'meas': None, 'dur': '0', 'pidx': None, 'par': None, 'loc': 'self', 'c': []}
             for fo in case['ops']:
                 live = _live(root)
                 main = {id(n) for n, _ in live}
@@ -576,22 +749,103 @@ def run_forest(case):
                 keep.extend(n for n, _ in live)
                 for m in held:
                     keep.extend(n for n, _ in _live(m))
-                out, eq = 'KDone', None
-                if fo['f'] == 'hold':
+                out, eq, flags = 'KDone', None, {}
+                kind = fo['f']
+                base = None
+                if kind in ('holdcopy', 'ins', 'addmeas', 'flatten'):
+                    b = fo.get('b')
+                    if (b is not None and not held) or (kind == 'ins' and not held):
+                        kind = 'skip'
+                    else:
+                        b = None if b is None else b % len(held)
+                        base = root if b is None else held[b]
+                if kind == 'skip':
+                    rf = {'f': 'main', 'op': nop}
+                elif kind == 'hold':
                     node, path = resolve(root, fo['sel'])
                     held.append(node)
                     rf = {'f': 'hold', 'path': path}
-                elif fo['f'] == 'main':
+                elif kind == 'main':
                     rop, out, eq = apply_op(env, root, _norm_op(fo['op'], volvals))
                     rf = {'f': 'main', 'op': rop}
-                else:
+                elif kind == 'at':
                     k = fo['k'] % len(held) if held else 0
                     if not held or id(held[k]) in main:
                         rf, out = {'f': 'at', 'k': k, 'op': nop}, 'KBadPath'
                     else:
+                        if id(held[k]) in floating:
+                            flags['floating_edit'] = True
                         rop, out, eq = apply_op(env, held[k], _norm_op(fo['op'], volvals))
                         rf = {'f': 'at', 'k': k, 'op': rop}
-                steps.append({'f': rf, 'out': out, 'eq': eq, 'tree': observe(root), 'held': held_obs()})
+                elif kind == 'holdcopy':
+                    x, path = resolve(base, fo['sel'])
+                    d, qpath = resolve(root, fo['q'])
+                    c = x.copy_tree_structure(**([{}, {'new_parent': None}, {'new_parent': d}][fo['np']]))
+                    held.append(c)
+                    keep.append(c)
+                    if fo['np'] == 2:
+                        floating.add(id(c))
+                    rf = {'f': 'holdcopy', 'b': b, 'path': path, 'np': fo['np'], 'q': qpath}
+                elif kind == 'ins':
+                    ks = [k % len(held) for k in fo['ks']]
+                    vals = [held[k] for k in ks]
+                    x, path = resolve(base, fo['dst'])
+                    how = fo['how']
+                    rf = {'f': 'ins', 'ks': ks, 'b': b, 'path': path, 'how': how}
+                    if any(id(v) in floating for v in vals) or id(base) in floating:
+                        flags['floating_edit'] = True
+                    try:
+                        if how[0] == 'slice':
+                            x[slice(how[1], how[2], how[3])] = vals
+                        elif not vals:
+                            pass
+                        elif how[0] == 'app':
+                            x.append_child(loop=vals[0])
+                        else:
+                            x[how[1]] = vals[0]
+                    except RecursionError:
+                        out = 'KRecursion'
+                    except (IndexError, TypeError, ValueError, RuntimeError, AttributeError, AssertionError) as e:
+                        out = KINDS[type(e).__name__]
+                elif kind == 'addmeas':
+                    x, path = resolve(base, fo['sel'])
+                    lst = x._measurements
+                    shared = lst is not None and any(o is not x and getattr(o, '_measurements', None) is lst for o in keep)
+                    if shared:     # _merge_single_child hands the child's list object to the parent: not modelled (C02's business)
+                        rf = {'f': 'main', 'op': nop}
+                    else:
+                        if id(base) in floating:
+                            flags['floating_edit'] = True
+                        x.add_measurements(env.meas(fo['ms']))
+                        rf = {'f': 'addmeas', 'b': b, 'path': path, 'ms': fo['ms']}
+                elif kind == 'flatten':
+                    x, path = resolve(base, fo['sel'])
+                    rf = {'f': 'flatten', 'b': b, 'path': path, 'depth': fo['depth']}
+                    if id(base) in floating:
+                        flags['floating_edit'] = True
+                    try:
+                        x.flatten_and_balance(fo['depth'])
+                    except RecursionError:
+                        out = 'KRecursion'
+                    except (IndexError, TypeError, ValueError, RuntimeError, AttributeError, AssertionError) as e:
+                        out = KINDS[type(e).__name__]
+                else:
+                    raise KeyError(kind)
+                if kind == 'ins' and out == 'KDone':
+                    floating.difference_update(id(v) for v in vals)
+                if kind == 'ins' and out != 'KDone':
+                    flags['failed_insert'] = True
+                if floating:
+                    flags['floating'] = True
+                if _cyclic(root) or any(_cyclic(m) for m in held):
+                    cut = {'KDone': 'KCycle', 'KRecursion': 'KRecCycle'}.get(out)
+                    if cut is None:
+                        raise RuntimeError('cyclic structure after %s' % out)
+                    steps.append({'f': rf, 'out': cut, 'eq': None, 'tree': dummy, 'held': [], 'flags': dict(flags, aliased=True)})
+                    break
+                if _aliased([root] + held):
+                    flags['aliased'] = True
+                steps.append({'f': rf, 'out': out, 'eq': eq, 'tree': observe(root), 'held': held_obs(), 'flags': flags})
             return {'init': init, 'steps': steps, 'forest': True}
     except vlib.Timeout:
         return {'hang': True}
@@ -719,11 +973,27 @@ def g_otree(t):
         loc, glist(g_otree, t['c']))
 
 
+def g_base(b):
+    return 'None' if b is None else '(Some %d%%nat)' % b
+
+
 def g_fop(f):
+    oz = lambda v: gopt(gZ, v)
     if f['f'] == 'hold':
         return '(FHold %s)' % g_path(f['path'])
     if f['f'] == 'main':
         return '(FMain %s)' % g_op(f['op'])
+    if f['f'] == 'holdcopy':
+        return '(FHoldCopy %s %s %d%%nat %s)' % (g_base(f['b']), g_path(f['path']), f['np'], g_path(f['q']))
+    if f['f'] == 'ins':
+        h = f['how']
+        how = 'IAppend' if h[0] == 'app' else '(IInt %s)' % gZ(h[1]) if h[0] == 'int' else \
+            '(ISlice %s %s %s)' % (oz(h[1]), oz(h[2]), oz(h[3]))
+        return '(FInsert %s %s %s %s)' % (glist(lambda k: '%d%%nat' % k, f['ks']), g_base(f['b']), g_path(f['path']), how)
+    if f['f'] == 'addmeas':
+        return '(FAddMeas %s %s %s)' % (g_base(f['b']), g_path(f['path']), glist(g_mw, f['ms']))
+    if f['f'] == 'flatten':
+        return '(FFlatten %s %s %s)' % (g_base(f['b']), g_path(f['path']), gZ(f['depth']))
     return '(FAt %d%%nat %s)' % (f['k'], g_op(f['op']))
 
 
@@ -769,9 +1039,16 @@ def inv_tree(t, here=(), root=True, idx=0, par=()):
 
 def first_failure(obs):
     for i, s in enumerate(obs.get('steps', [])):
+        if s['out'] in ('KCycle', 'KRecCycle'):
+            return i, 'the structure is cyclic (a node became its own descendant)'
         r = inv_tree(s['tree'])
         if r:
             return i, r
+        for k, t in enumerate(s.get('held', [])):
+            if t is not None:
+                r = inv_tree(t)
+                if r:
+                    return i, 'held tree %d: %s' % (k, r)
     return None
 
 
@@ -779,15 +1056,29 @@ def _opname(s):
     if 'op' in s:
         return s['op']['op']
     f = s['f']
-    return 'hold' if f['f'] == 'hold' else ('at:' if f['f'] == 'at' else '') + f['op']['op']
+    if f['f'] in ('hold', 'holdcopy', 'ins', 'addmeas', 'flatten'):
+        return f['f']
+    return ('at:' if f['f'] == 'at' else '') + f['op']['op']
 
 
 def classify(case, obs):
+    """known findings (documented domain restrictions of the property, see notes/C09.md):
+    aliased-insert: the caller hands a Loop object that is still listed somewhere to another position (one object at two
+    places, or below itself); failed-assignment-reparents: x[i] = v / x[a:b:c] = vs re-parents the values before it raises
+    IndexError / ValueError; floating-copy-explicit-parent: a copy made with an explicit new_parent records a parent
+    that does not list it."""
     ff = first_failure(obs)
     if ff is None:
         return None
     i, why = ff
-    return None      # no open known finding (roll-inner-waveform was repaired in 36dc22a)
+    upto = obs['steps'][:i + 1]
+    if any(s.get('flags', {}).get('aliased') for s in upto):
+        return 'aliased-insert'
+    if any(s.get('flags', {}).get('failed_insert') for s in upto):
+        return 'failed-assignment-reparents'
+    if any(s.get('flags', {}).get('floating') or s.get('flags', {}).get('floating_edit') for s in upto):
+        return 'floating-copy-explicit-parent'
+    return None
 
 
 def _has_inner_wf(t):
@@ -867,7 +1158,7 @@ def search_failing(ctx, broken):
     near = ctx.get('near')
     if near:
         def _k(o):
-            return o['op'] if isinstance(o.get('op'), str) else ('hold' if o.get('f') == 'hold' else o['op']['op'])
+            return o['op'] if isinstance(o.get('op'), str) else (o['f'] if 'op' not in o else o['op']['op'])
         kinds = {_k(o) for o in near['ops']}
         cases.sort(key=lambda c: -len(kinds & {_k(o) for o in c['ops']}))
     for c in cases:
